@@ -275,6 +275,198 @@ def judgeCP (P : Pair) (margin : Rat) (out : Option (ClosestPoints3 Rat)) : Stri
           | none => if close (rsqrt (p2.sub p1).normSq) sep P.scale then "pass" else "fail |p2-p1|-is-not-sep"
 
 
+/-! ## degenerate-but-valid corners: a ball against a segment / triangle / cuboid / capsule / ball, any poses
+
+Exact referee for the `x_*` functions (free functions `query::{contact, closest_points, distance, intersection_test}`):
+the signed separation of the pair is computed in the world frame from the definition of the shapes (closest point of a
+segment / triangle by brute force over its features, nearest face of the box), in `Rat`; only `sqrt` is approximate
+(`2^-40`).  When the ball centre lies ON a feature the contact normal is not unique: then no particular normal is
+demanded, only finite unit normals, `normal2 = -normal1` in the world, witnesses on their shapes,
+`dist = (p2 - p1)·n1 =` the signed separation. -/
+
+/-- closest point of the segment `[a, b]` to `p` -/
+def segClosest (a b p : V3 Rat) : V3 Rat :=
+  let ab := b.sub a
+  let n := ab.normSq
+  if n == 0 then a else a.add (ab.smul (rclamp ((p.sub a).dot ab / n) 0 1))
+
+/-- closest point of the triangle `abc` to `p`: the orthogonal projection on the plane when it falls inside, otherwise
+the best of the three edges (brute force, no Voronoi-region case analysis) -/
+def triClosest (a b c p : V3 Rat) : V3 Rat :=
+  let n := (b.sub a).cross (c.sub a)
+  let nn := n.normSq
+  let edges := [segClosest a b p, segClosest b c p, segClosest c a p]
+  let cands :=
+    if nn == 0 then edges else
+    let pr := p.sub (n.smul ((p.sub a).dot n / nn))
+    let s1 := ((b.sub a).cross (pr.sub a)).dot n
+    let s2 := ((c.sub b).cross (pr.sub b)).dot n
+    let s3 := ((a.sub c).cross (pr.sub c)).dot n
+    if s1 ≥ 0 && s2 ≥ 0 && s3 ≥ 0 then pr :: edges else edges
+  cands.foldl (fun best x => if (p.sub x).normSq < (p.sub best).normSq then x else best) (segClosest a b p)
+
+def WShape.rsize : WShape → Rat
+  | .ball r => rabs (q r)
+  | .cuboid h => vmag (q3 h)
+  | .halfspace _ => 0
+  | .capsule a b r => vmag (q3 a) + vmag (q3 b) + rabs (q r)
+  | .triangle a b c => vmag (q3 a) + vmag (q3 b) + vmag (q3 c)
+  | .segment a b => vmag (q3 a) + vmag (q3 b)
+  | .composite _ s => rabs (q s)
+
+/-- squared distance from the world point `p` to the "skeleton" of the posed shape (segment, triangle, capsule axis,
+ball centre); `none` for the other kinds -/
+def skeletonDistSq (s : WShape) (pos : Iso3 Rat) (p : V3 Rat) : Option (Rat × V3 Rat) :=
+  let wpt (x : V3 Float) : V3 Rat := pos.act (q3 x)
+  let res (cl : V3 Rat) : Option (Rat × V3 Rat) := some ((p.sub cl).normSq, cl)
+  match s with
+  | .ball _ => res pos.t
+  | .segment a b => res (segClosest (wpt a) (wpt b) p)
+  | .capsule a b _ => res (segClosest (wpt a) (wpt b) p)
+  | .triangle a b c => res (triClosest (wpt a) (wpt b) (wpt c) p)
+  | _ => none
+
+/-- ball (world centre `c`, radius `r`) against the posed shape `s`: signed separation and, when it is unique, the unit
+vector from the shape towards the ball (`none`: centre on the skeleton / on the boundary of the box / on a tie) -/
+def ballShapeSep (s : WShape) (pos : Iso3 Rat) (r : Rat) (c : V3 Rat) (scale : Rat) : Option (Rat × Option (V3 Rat)) :=
+  match s with
+  | .cuboid he => ballCuboidSep (q3 he) pos r c
+  | .halfspace _ | .composite .. => none
+  | _ =>
+    let thick : Rat := match s with
+      | .ball r2 => q r2
+      | .capsule _ _ r2 => q r2
+      | _ => 0
+    (skeletonDistSq s pos c).map fun (d2, cl) =>
+      let d := rsqrt d2
+      (d - thick - r, if d ≤ (1 / 1000000) * (1 + scale) then none else some ((c.sub cl).sdiv d))
+
+structure XPair where
+  s1 : WShape
+  pos1 : Iso3 Rat
+  s2 : WShape
+  pos2 : Iso3 Rat
+
+def XPair.scale (P : XPair) : Rat := vmag P.pos1.t + vmag P.pos2.t + P.s1.rsize + P.s2.rsize
+def XPair.slack (P : XPair) : Rat := tol * (1 + P.scale)
+/-- signed separation and the unit vector from shape 1 towards shape 2 (when unique); `none`: no ball in the pair, a
+kind without an exact referee, or a non-unit rotation -/
+def XPair.sep (P : XPair) : Option (Rat × Option (V3 Rat)) :=
+  if !(unitQ P.pos1 && unitQ P.pos2) then none else
+  match P.s1, P.s2 with
+  | s, .ball r => ballShapeSep s P.pos1 (q r) P.pos2.t P.scale
+  | .ball r, s => (ballShapeSep s P.pos2 (q r) P.pos1.t P.scale).map fun (v, n) => (v, n.map V3.neg)
+  | _, _ => none
+
+/-- world point `p` belongs to the posed shape (`boundary`: lies on its boundary), up to `slack` -/
+def wmem (s : WShape) (pos : Iso3 Rat) (p : V3 Rat) (slack : Rat) (boundary : Bool) : Bool :=
+  match s with
+  | .cuboid he => if boundary then onBoundaryW (.cuboid (q3 he)) pos p slack else memW (.cuboid (q3 he)) pos p slack
+  | .halfspace _ | .composite .. => false
+  | _ =>
+    let thick : Rat := match s with
+      | .ball r2 => q r2
+      | .capsule _ _ r2 => q r2
+      | _ => 0
+    match skeletonDistSq s pos p with
+    | none => false
+    | some (d2, _) =>
+      let hi := thick + slack + slack
+      let lo := thick - slack - slack
+      d2 ≤ hi * hi && (!boundary || lo ≤ 0 || d2 ≥ lo * lo)
+
+def judgeXContact (P : XPair) (pred : Rat) (out : Option (Contact3 Rat)) : String :=
+  match P.sep with
+  | none => "skip no-exact-referee (pair kind or non-unit rotation)"
+  | some (sep, nrm) =>
+    let sl := P.slack
+    let tag := if nrm.isNone then " (centre on a feature: normal not unique)" else ""
+    match out with
+    | none =>
+      if sep < pred - sl then s!"fail none-but-within-prediction sep={sep.toF} pred={pred.toF}" else "pass"
+    | some c =>
+      if sep > pred + sl then s!"fail some-but-beyond-prediction sep={sep.toF} pred={pred.toF}"
+      else if !close c.dist sep P.scale then s!"fail dist={c.dist.toF} expected-signed-distance={sep.toF}{tag}"
+      else if !close c.normal1.normSq 1 0 then s!"fail normal1-not-unit{tag}"
+      else if !close c.normal2.normSq 1 0 then s!"fail normal2-not-unit{tag}"
+      else if !closeV c.normal2 c.normal1.neg 0 then s!"fail normal2-not-minus-normal1-in-world{tag}"
+      else if !close ((c.point2.sub c.point1).dot c.normal1) c.dist P.scale then s!"fail dist-not-(p2-p1).n1{tag}"
+      else if !wmem P.s1 P.pos1 c.point1 sl false then s!"fail point1-not-on-shape1{tag}"
+      else if !wmem P.s2 P.pos2 c.point2 sl false then s!"fail point2-not-on-shape2{tag}"
+      else match nrm with
+        | some N => if closeV c.normal1 N 1000 then "pass" else "fail normal1-direction"
+        | none => "pass"
+
+def judgeXDistance (P : XPair) (out : Rat) : String :=
+  match P.sep with
+  | none => "skip no-exact-referee (pair kind or non-unit rotation)"
+  | some (sep, _) =>
+    let ex := if sep < 0 then 0 else sep
+    if close out ex P.scale then "pass" else s!"fail distance={out.toF} expected={ex.toF}"
+
+def judgeXIT (P : XPair) (out : Bool) : String :=
+  match P.sep with
+  | none => "skip no-exact-referee (pair kind or non-unit rotation)"
+  | some (sep, _) =>
+    if sep > P.slack && out then s!"fail intersecting-but-separated-by {sep.toF}"
+    else if sep < -P.slack && !out then s!"fail disjoint-but-overlapping-by {sep.toF}"
+    else if rabs sep ≤ P.slack then "skip exactly-touching"
+    else "pass"
+
+def judgeXCP (P : XPair) (margin : Rat) (out : ClosestPoints3 Rat) : String :=
+  match P.sep with
+  | none => "skip no-exact-referee (pair kind or non-unit rotation)"
+  | some (sep, nrm) =>
+    let sl := P.slack
+    match out with
+    | .intersecting => if sep > sl then s!"fail intersecting-but-separated-by {sep.toF}" else "pass"
+    | .disjoint => if sep < margin - sl then s!"fail disjoint-but-within-margin sep={sep.toF} margin={margin.toF}" else "pass"
+    | .withinMargin p1 p2 =>
+      if sep < -sl then s!"fail within-margin-but-overlapping-by {sep.toF}"
+      else if sep > margin + sl then "fail within-margin-but-beyond-margin"
+      else if !wmem P.s1 P.pos1 p1 sl true then "fail point1-not-on-the-boundary-of-shape1"
+      else if !wmem P.s2 P.pos2 p2 sl true then "fail point2-not-on-the-boundary-of-shape2"
+      else match nrm with
+        | some N => if closeV (p2.sub p1) (N.smul sep) P.scale then "pass" else "fail p2-p1-is-not-sep*normal"
+        | none => if close (rsqrt (p2.sub p1).normSq) sep P.scale then "pass" else "fail |p2-p1|-is-not-sep"
+
+/-! ## totality clause shared by every function of C02 / C03 (first clause of their oracles)
+
+A NaN or an infinity anywhere in the implementation's result fails the case, whatever the function: the verdict
+`fail non-finite-output …` is what C20 counts.  Placeholders that the harness prints on purpose are not results:
+the auxiliary scalars after the last `;` of the `o_*` lines (distance / depth of an unsupported pair or of a missing
+contact print as `nan`) and the last token of `v_dispatch` (`nan` when there is no contact).  Cases that the function's
+own oracle puts outside the valid domain (bad arguments, non-unit rotation / direction, negative parameter,
+unsupported pair) stay `skip`. -/
+def isNonFiniteTok (t : String) : Bool :=
+  t = "nan" || (match FloatIO.ofHex? t with
+    | some x => !FloatIO.isFinite x
+    | none => false)
+
+def resultToks (fn : String) (out : List String) : List String :=
+  if fn.startsWith "o_" || fn.startsWith "o2_" then (out.reverse.dropWhile (· ≠ ";")).reverse
+  else if fn = "v_dispatch" then out.dropLast
+  else out
+
+def outsideDomain (verdict : String) : Bool :=
+  ["skip bad-args", "skip non-unit-rotation", "skip non-unit-direction", "skip negative-parameter", "skip negative-margin",
+   "skip negative-target", "skip unsupported-pair", "skip bad-shape"].any fun p => verdict.startsWith p
+
+def guardFinite (fn : String) (h : Handler) : Handler :=
+  { model := h.model
+    oracle := fun a o =>
+      let core := h.oracle a o
+      match o with
+      | "panic" :: _ => core
+      | _ =>
+        let toks := resultToks fn o
+        match toks.findIdx? isNonFiniteTok with
+        | none => core
+        | some i =>
+          if core.startsWith "fail non-finite-output" then core
+          else if outsideDomain core then core
+          else s!"fail non-finite-output fn={fn} result-token#{i}={toks.getD i ""} (NaN or infinity in the result; rest of the oracle: {(core.splitOn " ").take 2})" }
+
 /-! ## 2-D -/
 inductive WShape2 where
   | ball (r : Float)
